@@ -409,15 +409,43 @@ open MW.Spec.KV (DB Cursor)
 
 variable {s : Store} {d : DB}
 
-theorem Bucket.newIterator_rng {b : Bucket} {p : Path} (hb : b.IsAt p) (s : Store) (start limit : Bytes) :
-    (b.newIterator (ro s) start limit).rng = s.range (dataKey p start) (iterLimit p limit) := by
-  unfold Bucket.newIterator Bucket.innerKeyForIterator iterLimit
+/-- clamping an inverted limit to the start does not change the (empty) range -/
+theorem range_clampLimit {α : Type} (m : SMap α) (s0 : Bytes) (l : Option Bytes) :
+    m.range s0 (clampLimit s0 l) = m.range s0 l := by
+  cases l with
+  | none => rfl
+  | some l =>
+    unfold clampLimit
+    by_cases hl : blt l s0 = true
+    · simp only [hl, if_true, SMap.range]
+      apply List.filter_congr
+      intro e _
+      cases h1 : ble s0 e.1 with
+      | false => rfl
+      | true =>
+        have h2 : blt e.1 s0 = false := by simpa [ble] using h1
+        have h3 : blt e.1 l = false := by
+          cases h3 : blt e.1 l with
+          | false => rfl
+          | true => rw [blt_trans h3 hl] at h2; cases h2
+        simp [h2, h3]
+    · simp [hl]
+
+theorem Bucket.iterBounds_eq {b : Bucket} {p : Path} (hb : b.IsAt p) (start limit : Bytes) :
+    b.iterBounds start limit = (dataKey p start, clampLimit (dataKey p start) (iterLimit p limit)) := by
+  unfold Bucket.iterBounds Bucket.innerKeyForIterator iterLimit
   simp only [hb.path]
   by_cases hl : (limit.length == 0) = true
   · have : limit = [] := List.length_eq_zero_iff.mp (by simpa using hl)
     subst this
-    simp [ro, dataKey]
-  · simp [hl, ro, dataKey]
+    simp [dataKey]
+  · simp [hl, dataKey]
+
+theorem Bucket.newIterator_rng {b : Bucket} {p : Path} (hb : b.IsAt p) (s : Store) (start limit : Bytes) :
+    (b.newIterator (ro s) start limit).rng = s.range (dataKey p start) (iterLimit p limit) := by
+  unfold Bucket.newIterator
+  simp only [Bucket.iterBounds_eq hb]
+  exact range_clampLimit s _ _
 
 /-- `iter_sorted`: a script of Seek / Next steps on a read-only iterator of an existing bucket
     observes exactly what a cursor over the bucket's entries in [start, limit), ascending, observes -/
